@@ -271,7 +271,7 @@ PROPS["C19"] = dict(
 PROPS["C02"] = dict(
     pkg="props/c02", level="fault_enumeration", engine="E-crash", design_ref="§4 C02", aux_builds=RUNNER_AUX,
     technique="PBT-generated workloads (rapid) run in a child under strace; EVERY system-call boundary of the run becomes a crash image (inode model) that the real recovery code must open to the acknowledged state",
-    rule=("evaluation = one distinct (crash image, acknowledgement state) of a traced run: programs of 1..2 sessions x 6..30 Put/Delete/rotate/compact-once steps over <=8 adversarial keys with the synchronous WAL, memstore limit "
+    rule=("programs write hot keys (3..8, rewritten and deleted all the time) and up to 12 cold keys (each written by exactly one Put, so every table and log file holds something nothing else shadows); evaluation = one distinct (crash image, acknowledgement state) of a traced run: programs of 1..2 sessions x 6..30 Put/Delete/rotate/compact-once steps over <=8 adversarial keys with the synchronous WAL, memstore limit "
           "64..512 B, write buffer {16,64,4Mi}, compaction threshold 0..2 / max size / ratio, deterministic mode (flusher awaited after each step, hook-driven compaction) or free mode (real 1 ms ticker, un-awaited flushes), "
           "optionally ending without Close; every boundary between two system calls of any thread is materialised and recovered in-process by simpledb.Open: Open must succeed, the key universe must read as the map of the "
           "acknowledged operations (each in-flight operation present or absent), and Close+Open again must give the same content; non-trivial = boundary inside a multi-call protocol (WAL rotation, flush, compaction write/install, "
@@ -280,7 +280,7 @@ PROPS["C02"] = dict(
     level_note="boundaries are exhaustive per traced run, runs are samples; power-loss behaviour (unsynced data lost) is outside the stated model",
     assumptions=CRASH_ASSUME,
     require_labels=["win:wal-rotation", "win:flush", "win:compaction-write", "win:compaction-install", "win:recovery", "win:shutdown"],
-    quick=dict(shards=16, checks=1, shrink_s=1, env=dict(VERIF_SHRINK_S=20)),
+    quick=dict(shards=16, checks=2, shrink_s=1, env=dict(VERIF_SHRINK_S=20)),
     thorough=dict(shards=16, checks=25, shrink_s=1, timeout_s=7200, env=dict(VERIF_SHRINK_S=60)),
 )
 
@@ -295,7 +295,7 @@ PROPS["C13"] = dict(
     level_note="a rotation counts as completed when the next numbered WAL file has been created (the previous one was flushed and closed before); runs are samples of programs x schedules",
     assumptions=CRASH_ASSUME,
     require_labels=["win:wal-rotation", "win:flush", "small-program", "large-program-over-4MiB-of-log"],
-    quick=dict(shards=16, checks=1, shrink_s=1, env=dict(VERIF_SHRINK_S=20)),
+    quick=dict(shards=16, checks=2, shrink_s=1, env=dict(VERIF_SHRINK_S=20)),
     thorough=dict(shards=16, checks=20, shrink_s=1, timeout_s=7200, env=dict(VERIF_SHRINK_S=60), require_labels=["win:wal-rotation", "win:flush", "small-program", "large-program-over-4MiB-of-log", "lost-suffix-of-acknowledged-writes"]),
 )
 
@@ -312,7 +312,7 @@ PROPS["C10"] = dict(
     assumptions=CRASH_ASSUME + ["every permutation of the unlinks one os.RemoveAll issues inside a directory is a feasible execution on some file system"],
     require_labels=["nested-depth2:replay-flush", "nested-depth2:wal-removal", "nested-depth2:repair-compactions", "nested-depth3:replay-flush"],
     expect_labels=["nested:unlink-order-permutation"],
-    quick=dict(shards=16, checks=1, shrink_s=1, env=dict(VERIF_SHRINK_S=30)),
+    quick=dict(shards=16, checks=3, shrink_s=1, env=dict(VERIF_SHRINK_S=30)),
     thorough=dict(shards=16, checks=12, shrink_s=1, timeout_s=7200, env=dict(VERIF_SHRINK_S=90)),
 )
 
